@@ -91,7 +91,7 @@ def abort_site(stderr_text):
 
 def signature(e):
     site = e.get("site", "")
-    site = re.sub(r"\s+", " ", site)[:70]
+    site = re.sub(r"\s+", " ", site)[:110]
     if e["outcome"] in ("panic", "abort", "timeout"):
         return "%s|%s|%s|%s" % (e["kind"], e["target"], e["outcome"], site)
     return "%s|%s|%s" % (e["kind"], e["target"], e["outcome"])
